@@ -77,7 +77,8 @@ func (p *vparser) build(t reflect.Type, rv reflect.Value) error {
 			return nil
 		}
 		b, err := hex.DecodeString(p.until(vstop))
-		sl := reflect.MakeSlice(t, len(b), len(b))
+		// with spare capacity, as a buffer that is re-sliced (`buf[:n]`) has
+		sl := reflect.MakeSlice(t, len(b), len(b)+4)
 		for k := range b {
 			sl.Index(k).SetUint(uint64(b[k]))
 		}
